@@ -104,7 +104,10 @@ fn pick_col<'a>(rng: &mut Rng, s: &'a Src, kinds: &str) -> Option<&'a (String, &
 fn gen_scalar(rng: &mut Rng, s: &Src, depth: u32) -> String {
     let num = pick_col(rng, s, "if").map(|c| c.0.clone()).unwrap_or("1".into());
     if depth == 0 { return num; }
-    match rng.below(15) {
+    match rng.below(17) {
+        // unary minus over a sum / difference (precedence of the rendered minus)
+        15 => format!("- ({num} + {})", rng.range(1, 4)),
+        16 => { let o = pick_col(rng, s, "if").map(|c| c.0.clone()).unwrap_or("1".into()); format!("- ({num} - {o})") }
         // the mathematical and text functions the reader lists as supported
         12 => { let f = *rng.pick(&["sqrt(abs({x}))", "exp({x} / 10)", "ln(abs({x}) + 1)", "log10(abs({x}) + 1)", "sin({x})", "cos({x})", "round({x} / 3)", "sign({x})", "pow({x}, 2)", "trunc({x} / 3)", "{x} * {x}", "- {x}", "tan({x} / 20)", "log2(abs({x}) + 1)", "abs({x}) + sign({x})"]); f.replace("{x}", &num) }
         13 => pick_col(rng, s, "t").map(|c| { let f = *rng.pick(&["lower({t})", "substr({t}, 1, 1)", "ltrim({t})", "rtrim({t})", "{t} || 'x'", "char_length({t})", "upper(lower({t}))", "concat(lower({t}), upper({t}))"]); f.replace("{t}", &c.0) }).unwrap_or(num),
@@ -127,7 +130,11 @@ fn gen_scalar(rng: &mut Rng, s: &Src, depth: u32) -> String {
 
 fn gen_where(rng: &mut Rng, s: &Src) -> String {
     let c = pick_col(rng, s, "if").map(|c| c.0.clone()).unwrap_or("1".into());
-    match rng.below(11) {
+    match rng.below(14) {
+        // negation of a conjunction / disjunction / range (precedence of the rendered NOT)
+        11 => { let d = pick_col(rng, s, "if").map(|c| c.0.clone()).unwrap_or("1".into()); format!("NOT ({c} > {} AND {d} < {})", rng.range(0, 4), rng.range(3, 8)) }
+        12 => { let d = pick_col(rng, s, "if").map(|c| c.0.clone()).unwrap_or("1".into()); format!("NOT ({c} < {} OR {d} >= {})", rng.range(1, 4), rng.range(2, 6)) }
+        13 => format!("{c} NOT BETWEEN {} AND {}", rng.range(0, 3), rng.range(3, 7)),
         6 => format!("{c} BETWEEN {} AND {}", rng.range(-2, 3), rng.range(3, 9)),
         7 => format!("NOT ({c} > {})", rng.range(0, 6)),
         8 => format!("{c} IS NOT NULL AND {c} <> {}", rng.range(0, 5)),
@@ -165,6 +172,7 @@ pub fn gen_sql(rng: &mut Rng) -> (String, bool) {
                 format!("{a} AS m{i}") }).collect();
             match (key, rng.below(4)) {
                 (Some(k), 0) | (Some(k), 1) => { let having = if rng.chance(1, 4) { " HAVING count(*) > 1" } else { "" }; (format!("SELECT {k} AS k, {} FROM {}{where_} GROUP BY {k}{having}", aggs.join(", "), s.from), false) }
+                (Some(k), 3) if rng.chance(1, 3) => (format!("SELECT {k} AS k FROM {}{where_} GROUP BY {k}", s.from), false),
                 (Some(k), 2) if !k.contains('.') => (format!("SELECT {k} + 1 AS k, {} FROM {}{where_} GROUP BY {k} + 1", aggs.join(", "), s.from), false),
                 _ => (format!("SELECT {} FROM {}{where_}", aggs.join(", "), s.from), false),
             }
